@@ -3,7 +3,7 @@ Each rewrite edits the TEXT of a valid generated document at a randomly chosen a
 what the rewritten document actually violates is decided by the Lean specification
 (Spec/Validation.lean), never by the rewrite's intent."""
 import re, random
-from gen import tstr, base, print_value
+from gen import tstr, base, print_value, is_nn
 
 def _sites(q, pattern):
     return [m for m in re.finditer(pattern, q)]
@@ -211,6 +211,14 @@ class Catalogue:
         ms = _sites(q, r"\b(__typename)\b")
         for m in ms[:1]: res.append(_insert(q, m.end(), ' @deprecated(reason: "x")'))
         res.append(re.sub(r"^fragment (F\d+) on (\w+) \{", r"fragment \1 on \2 @include(if: true) {", q, count=1, flags=re.M))
+        # a FIELD_DEFINITION-only directive on inline fragments (with and without type condition, at any depth) and on spreads
+        br = selection_braces(q)
+        for b in self.r.sample(br, min(2, len(br))):
+            res.append(_insert(q, b + 1, ' ... @deprecated(reason: "x") { __typename } '))
+        ms = _sites(q, r"\.\.\. on (\w+) ")
+        for m in self.r.sample(ms, min(2, len(ms))): res.append(_insert(q, m.end(), '@deprecated(reason: "x") '))
+        ms = _sites(q, r"\.\.\.(F\d+)")
+        for m in self.r.sample(ms, min(2, len(ms))): res.append(_insert(q, m.end(), ' @deprecated(reason: "x")'))
         return res
     def m_directive_duplicate(self, q):
         ms = _sites(q, r"@(skip|include)\(if: [^)]*\)")
@@ -291,3 +299,55 @@ LEGAL_UNUSUAL = [
     "query A { ...F ...F } fragment F on Query { __typename ...G } fragment G on Query { a: __typename }",
     "fragment Z on Query { __typename } query { ...Z ... on Query { ...Z } }",
 ]
+
+
+def _paths_to(sg, target, depth=2):
+    """selection prefixes/suffixes leading from Query to a field whose base type is `target` (no required arguments)"""
+    out = []
+    def ok(f): return not any(is_nn(a["type"]) and not a.get("default") for a in f["args"])
+    q = sg.tdef("Query")
+    for f in q["fields"]:
+        if not ok(f): continue
+        if base(f["type"]) == target: out.append((f["name"] + " { ", " }"))
+        elif depth > 1:
+            td = sg.tdef(base(f["type"]))
+            if td and td["kind"] == "object":
+                for g in td["fields"]:
+                    if ok(g) and base(g["type"]) == target: out.append((f["name"] + " { " + g["name"] + " { ", " } }"))
+    return out
+
+def overlapping_abstract_spreads(sg, rng):
+    """VALID documents: a fragment on one abstract (or object) type spread where another composite type is expected and
+    the two share at least one possible object type — including partial overlaps where neither contains the other"""
+    docs = []
+    comp = sg.obj_names + sg.iface_names + sg.union_names
+    for a in comp:
+        paths = _paths_to(sg, a)
+        if not paths: continue
+        for b in comp:
+            if a == b: continue
+            pa, pb = set(sg.possible(a)), set(sg.possible(b))
+            if not (pa & pb): continue
+            pre, post = rng.choice(paths)
+            docs.append("{ " + pre + "...Ovz " + post + " }\nfragment Ovz on " + b + " { __typename }")
+            docs.append("{ " + pre + "... on " + b + " { __typename } " + post + " }")
+    return docs
+
+def impossible_reuse(sg, rng):
+    """INVALID documents: one named fragment spread twice, once where it can apply and once where it never can
+    (in both document orders)"""
+    docs = []
+    comp = sg.obj_names + sg.iface_names + sg.union_names
+    for x in comp:
+        px = _paths_to(sg, x)
+        if not px: continue
+        for y in comp:
+            if set(sg.possible(x)) & set(sg.possible(y)): continue
+            py = _paths_to(sg, y)
+            if not py: continue
+            (a1, a2), (b1, b2) = rng.choice(px), rng.choice(py)
+            good, bad = f"k1: {a1}...Rz {a2}", f"k2: {b1}...Rz {b2}"
+            frag = f"\nfragment Rz on {x} {{ __typename }}"
+            docs.append("{ " + good + " " + bad + " }" + frag)
+            docs.append("{ " + bad + " " + good + " }" + frag)
+    return rng.sample(docs, min(8, len(docs)))
